@@ -5,8 +5,7 @@ pub mod ast;
 pub mod consts;
 pub mod fmtgo;
 pub mod interp;
-#[path = "calib.rs"]
-pub mod calibrate;
+pub mod calib;
 pub mod lex;
 pub mod num;
 pub mod types;
@@ -18,7 +17,7 @@ pub mod parse;
 pub use interp::{Event, Exit, PanicClass, RunConfig, RunResult, Sched};
 pub use parse::ParseError;
 pub use vet::{VetError, VetReport};
-pub use calibrate::{calibrate as calibrate_corpus, CalibrationReport};
+pub use calib::{calibrate, CalibrationReport};
 
 const BIG_STACK: usize = 256 << 20;
 
@@ -78,9 +77,10 @@ pub fn run(file: &ast::File, cfg: &RunConfig) -> RunResult {
     with_big_stack(|| interp::run_inline(file, cfg))
 }
 
-/// Depth-first enumeration of schedules: every run is replayed from a
-/// script prefix; alternatives are taken from the recorded choice points.
-/// At most `max_runs` runs are performed.
+/// Enumeration of schedules by replay of `Sched::Script` prefixes built from
+/// the recorded `sched_choices` (a depth-first style exploration of the
+/// choice tree, ordered so that schedules with the fewest deviations from
+/// the default choices are run first). At most `max_runs` runs.
 pub fn enumerate_schedules(file: &ast::File, base: &RunConfig, max_runs: usize) -> Vec<RunResult> {
     enumerate_schedules_bounded(file, base, max_runs, usize::MAX)
 }
@@ -88,29 +88,5 @@ pub fn enumerate_schedules(file: &ast::File, base: &RunConfig, max_runs: usize) 
 /// Like `enumerate_schedules`, but only the first `max_depth` choice points
 /// of a run are branched on.
 pub fn enumerate_schedules_bounded(file: &ast::File, base: &RunConfig, max_runs: usize, max_depth: usize) -> Vec<RunResult> {
-    let mut results = Vec::new();
-    let mut work: Vec<Vec<u32>> = vec![Vec::new()];
-    while let Some(prefix) = work.pop() {
-        if results.len() >= max_runs {
-            break;
-        }
-        let cfg = RunConfig { step_budget: base.step_budget, sched: Sched::Script(prefix.clone()), max_output: base.max_output, trace_calls: base.trace_calls };
-        let r = run(file, &cfg);
-        // branch on the choice points after the prefix (deepest first so that
-        // the work list behaves like a DFS stack)
-        let upto = r.sched_choices.len().min(max_depth);
-        for i in prefix.len()..upto {
-            let (n, chosen) = r.sched_choices[i];
-            for alt in 0..n {
-                if alt == chosen {
-                    continue;
-                }
-                let mut p: Vec<u32> = r.sched_choices[..i].iter().map(|c| c.1).collect();
-                p.push(alt);
-                work.push(p);
-            }
-        }
-        results.push(r);
-    }
-    results
+    with_big_stack(|| interp::enumerate_inline(file, base, max_runs, max_depth))
 }
